@@ -780,6 +780,8 @@ def check_lvl_answer(r, p, ans):
             return None
         if x is not None and abs(int(r["back"]) - int(back)) <= 1 and abs(x - round(x)) <= 1e-6 * max(1.0, abs(x)):
             return None
+        if x is not None and abs(int(r["back"]) - int(back)) <= 1e-12 * abs(x):
+            return None  # numerically-zero demand (1e-25): the quotient is ~1e25, one ulp of it is far more than 1 s
         return "_backtrack: impl %s model %s" % (r["back"], back)
     return None
 
